@@ -38,13 +38,20 @@ CTYPES = ['Not', 'And', 'Or', 'Xor', 'Override', 'Func', 'Func']
 def gen_spec(rng):
     n_in = rng.randrange(1, 4)
     n_c = rng.randrange(1, 7)
-    names = [f"i{k}" for k in range(n_in)] + [f"c{k}" for k in range(n_c)]
+    # some circuits use block names that contain '_not_' themselves: only the PREFIX '_not_'
+    # makes a shortcut; decoy blocks carry the names one would get by stripping every '_not_'
+    mid = '_not_' if rng.random() < 0.25 else ''
+    names = [f"i{mid}{k}" for k in range(n_in)] + [f"c{mid}{k}" for k in range(n_c)]
     acyclic = rng.random() < 0.7
     blocks = []
     for k in range(n_in):
-        blocks.append({'name': f"i{k}", 'type': 'Input', 'events': []})
+        blocks.append({'name': f"i{mid}{k}", 'type': 'Input', 'events': []})
+    if mid:
+        for k in range(n_in + n_c):
+            blocks.append({'name': names[k].replace('_not_', ''), 'type': 'Input', 'events': [],
+                           'sink': True, 'decoy': True})
     for k in range(n_c):
-        name = f"c{k}"
+        name = f"c{mid}{k}"
         pool = names[:n_in + k] if acyclic else names
 
         def ref():
